@@ -191,6 +191,59 @@ func roleOf(t network.NodeNeuronType) string {
 	return fmt.Sprintf("?%d", t)
 }
 
+// User-registered activation types (Codec.tla: ActNames 24 and 25).  "Every registered activation type" includes what a
+// user registers through the public NodeActivators.Register / RegisterModule: the replayer registers one scalar and one
+// module function under the first two type codes >= 40 that are free, with the names the specification uses; the files
+// carry names only, so the codes do not matter.
+const (
+	specUserScalar = 24
+	specUserModule = 25
+)
+
+var userScalarType, userModuleType neatmath.NodeActivationType
+
+func init() {
+	free := func(from neatmath.NodeActivationType) neatmath.NodeActivationType {
+		for t := from; t < 250; t++ {
+			if _, err := neatmath.NodeActivators.ActivationNameFromType(t); err != nil {
+				return t
+			}
+		}
+		panic("no free activation type code")
+	}
+	userScalarType = free(40)
+	neatmath.NodeActivators.Register(userScalarType, func(x float64, _ []float64) float64 { return x / (1 + x*x) }, "VerifUserScalarActivation")
+	userModuleType = free(userScalarType + 1)
+	neatmath.NodeActivators.RegisterModule(userModuleType, func(in []float64, _ []float64) []float64 {
+		s := 0.0
+		for _, v := range in {
+			s += v
+		}
+		return []float64{s}
+	}, "VerifUserModuleActivation")
+}
+
+// realAct maps the specification's activation number to the real type code, specAct back.
+func realAct(a int) neatmath.NodeActivationType {
+	switch a {
+	case specUserScalar:
+		return userScalarType
+	case specUserModule:
+		return userModuleType
+	}
+	return neatmath.NodeActivationType(a)
+}
+
+func specAct(t neatmath.NodeActivationType) int {
+	switch t {
+	case userScalarType:
+		return specUserScalar
+	case userModuleType:
+		return specUserModule
+	}
+	return int(t)
+}
+
 // build constructs the real genome the abstract record describes, floats taken from the table.
 func build(a *aGenome, tb table) *genetics.Genome {
 	traits := make([]*neat.Trait, len(a.Traits))
@@ -211,7 +264,7 @@ func build(a *aGenome, tb table) *genetics.Genome {
 	nById := map[int]*network.NNode{}
 	for i, n := range a.Nodes {
 		nd := network.NewNNode(n.Id, roleType[n.Role])
-		nd.ActivationType = neatmath.NodeActivationType(n.Act)
+		nd.ActivationType = realAct(n.Act)
 		nd.Trait = byId[n.Tr] // nil for 0
 		nodes[i] = nd
 		nById[n.Id] = nd
@@ -232,7 +285,7 @@ func build(a *aGenome, tb table) *genetics.Genome {
 	mods := make([]*genetics.MIMOControlGene, len(a.Mods))
 	for i, m := range a.Mods {
 		cn := network.NewNNode(m.Id, network.HiddenNeuron)
-		cn.ActivationType = neatmath.NodeActivationType(m.Act)
+		cn.ActivationType = realAct(m.Act)
 		cn.Trait = byId[m.Tr]
 		for _, id := range m.Ins {
 			cn.Incoming = append(cn.Incoming, network.NewLink(1.0, nById[id], cn, false))
@@ -305,7 +358,7 @@ func project(g *genetics.Genome, withMods bool) pGenome {
 		p.Traits = append(p.Traits, pt)
 	}
 	for _, n := range g.Nodes {
-		p.Nodes = append(p.Nodes, pNode{Id: n.Id, Role: roleOf(n.NeuronType), Act: int(n.ActivationType), Tr: trId(n.Trait)})
+		p.Nodes = append(p.Nodes, pNode{Id: n.Id, Role: roleOf(n.NeuronType), Act: specAct(n.ActivationType), Tr: trId(n.Trait)})
 	}
 	for _, e := range g.Genes {
 		pg := pGene{Inn: e.InnovationNum, Src: -1, Dst: -1, En: e.IsEnabled, Mut: hexf(e.MutationNum), Tr: -1}
@@ -319,7 +372,7 @@ func project(g *genetics.Genome, withMods bool) pGenome {
 		for _, m := range g.ControlGenes {
 			pm := pMod{Inn: m.InnovationNum, Mut: hexf(m.MutationNum), En: m.IsEnabled, Id: -1, Tr: -1, Ins: []int{}, Outs: []int{}}
 			if cn := m.ControlNode; cn != nil {
-				pm.Id, pm.Act, pm.Tr = cn.Id, int(cn.ActivationType), trId(cn.Trait)
+				pm.Id, pm.Act, pm.Tr = cn.Id, specAct(cn.ActivationType), trId(cn.Trait)
 				for _, l := range cn.Incoming {
 					pm.Ins = append(pm.Ins, ndId(l.InNode))
 				}
